@@ -16,7 +16,7 @@ ALLOWED_AXIOMS = {"Classical_Prop.classic", "ClassicalDedekindReals.sig_not_dec"
                   "ClassicalDedekindReals.sig_forall_dec",
                   "FunctionalExtensionality.functional_extensionality_dep"}
 MANIFEST = {
-    "text": "Coq theorems over the handler and query models: GetValue / PublishValue / Actuate / BatchActuate with signal_id, oneof, data_point or value absent are answered INVALID_ARGUMENT; an absent value is NotAvailable; a request answered with an error leaves the store (publish) resp. the whole state (actuate, batch) exactly as it was, so the broker keeps serving; the executor arm guarded by debug_assert (unresolved literal) is unreachable from every compiled query, and LAG with other than one plain argument, other functions and unary minus are answered with a compilation error. Tied to the code on every run: (1) the databroker's own tonic server on loopback is sent every RPC of the three services (incl. the three client-streaming ones) in 170 structural shapes - every optional message part absent, oneofs unset, enums out of range, empty / 1001- / 100000-character paths, 100000-element arrays, 1000-element batches, extreme timestamps, queries at and beyond the size limits - each followed by a probe (write, read back, list metadata) that must succeed, with the panic hook counting panics and a crashed or silent server reported with the request; (2) handler-level histories with absent and invalid parts are diffed against the extracted model, a panicking operation being reported per operation while the history goes on; (3) free-text queries; (4) a panic-site inventory: every unwrap / expect / todo! / index / assert in the production code of the request path must be listed in panic_inventory.json with the reason why no request reaches it.",
+    "text": "Coq theorems over the handler and query models: GetValue / PublishValue / Actuate / BatchActuate with signal_id, oneof, data_point or value absent are answered INVALID_ARGUMENT; an absent value is NotAvailable; a request answered with an error leaves the store (publish) resp. the whole state (actuate, batch) exactly as it was, so the broker keeps serving; the executor arm guarded by debug_assert (unresolved literal) is unreachable from every compiled query, and LAG with other than one plain argument, other functions and unary minus are answered with a compilation error. Tied to the code on every run: (1) the databroker's own tonic server on loopback is sent every RPC of the three services (incl. the three client-streaming ones) in 170 structural shapes - every optional message part absent, oneofs unset, enums out of range, empty / 1001- / 100000-character paths, 100000-element arrays, 1000-element batches, extreme timestamps, queries at and beyond the size limits - each followed by a probe (write, read back, list metadata) that must succeed, with the panic hook counting panics and a crashed or silent server reported with the request; (2) handler-level histories with absent and invalid parts are diffed against the extracted model, a panicking operation being reported per operation while the history goes on; (3) free-text queries; (4) a panic-site inventory: every unwrap / expect / todo! / index / assert in the production code of the request path must be listed in panic_inventory.json with the reason why no request reaches it. Fourth part: what gRPC clients wrote (client timestamps from the year 2001, the year 10000 and 9e12 s before / after the epoch; long non-ASCII strings) is read over the VISS socket, and long multi-byte VISS frames (2-, 3-, 4-byte characters in every alignment across 1 KiB ... 8 KiB) are sent: every VISS request must be answered and nothing may panic.",
     "note": "Partial by nature: the theorems cover the handlers the model has (Model/Api.v: Get/Set/GetValue(s)/PublishValue/Actuate/BatchActuate/ListMetadata/sdv Get/Set/Update/Register/GetMetadata and the query compiler/executor); Subscribe variants, provider and collector streams and GetServerInfo are covered by the structural enumeration only; panics inside libraries (tonic, prost, sqlparser) are reachable only by that enumeration. Memory exhaustion and slow clients are not covered: a query subscriber that stops reading blocks writers once its 10-slot channel is full (DESIGN.md, limits). Trusted: Coq kernel; Flocq's stdlib axioms; extraction; harness/src/fam_srv.rs, fam_shapes.rs, fam_hist.rs; vp/inventory.py (a textual scan). The VISS socket is covered by C20.",
 }
 RULE = ("exhaustive over the catalogue: 22 RPCs x their structural variants (170 request shapes, harness/src/fam_shapes.rs) plus 28 texts with multi-byte characters straddling the path limit (1000 bytes) and the query limit (4096 bytes) in every alignment, put into every text slot of every RPC (644 more shapes), "
